@@ -26,6 +26,7 @@ type Outcome struct {
 	Signal   string // non-empty if killed by a signal
 	TimedOut bool
 	Progress [2]int64 // last announced (item, ordinal)
+	Notes    [][]byte // what the worker noted as it went (one JSON value each)
 }
 
 func (o Outcome) Crashed() bool { return o.ExitCode != 0 || o.Signal != "" || o.TimedOut }
@@ -76,6 +77,19 @@ func ChownNobody(path string) {
 var seq atomic.Int64
 
 // RunWorker runs `self worker args...` with a progress file and a wall-clock backstop.
+// Note appends one JSON value (a finding) to the worker's notes file, at once. The parent
+// reads the notes of a worker that did not live to print its result (Outcome.Notes).
+func Note(v any) {
+	p := os.Getenv("VERIF_NOTES")
+	if p == "" {
+		return
+	}
+	if f, err := os.OpenFile(p, os.O_WRONLY|os.O_APPEND, 0); err == nil {
+		f.Write(append(MustJSON(v), '\n'))
+		f.Close()
+	}
+}
+
 func RunWorker(args []string, stdin []byte, timeout time.Duration, nobody bool, extraEnv ...string) Outcome {
 	self, err := os.Executable()
 	if err != nil {
@@ -86,8 +100,13 @@ func RunWorker(args []string, stdin []byte, timeout time.Duration, nobody bool, 
 	os.WriteFile(prog, make([]byte, 16), 0o666)
 	os.Chmod(prog, 0o666)
 	defer os.Remove(prog)
+	// findings a worker notes as it goes (Note): they survive the worker running out of its time budget
+	notes := prog + ".notes"
+	os.WriteFile(notes, nil, 0o666)
+	os.Chmod(notes, 0o666)
+	defer os.Remove(notes)
 	cmd := exec.Command(self, append([]string{"worker"}, args...)...)
-	cmd.Env = append(os.Environ(), "GOMAXPROCS=1", "VERIF_PROGRESS="+prog, "GOTRACEBACK=single")
+	cmd.Env = append(os.Environ(), "GOMAXPROCS=1", "VERIF_PROGRESS="+prog, "VERIF_NOTES="+notes, "GOTRACEBACK=single")
 	cmd.Env = append(cmd.Env, extraEnv...)
 	cmd.Stdin = bytes.NewReader(stdin)
 	var so, se bytes.Buffer
@@ -124,6 +143,13 @@ func RunWorker(args []string, stdin []byte, timeout time.Duration, nobody bool, 
 	if b, err := os.ReadFile(prog); err == nil && len(b) >= 16 {
 		out.Progress[0] = int64(binary.LittleEndian.Uint64(b[0:8]))
 		out.Progress[1] = int64(binary.LittleEndian.Uint64(b[8:16]))
+	}
+	if b, err := os.ReadFile(notes); err == nil {
+		for _, l := range bytes.Split(b, []byte{'\n'}) {
+			if len(l) > 0 {
+				out.Notes = append(out.Notes, l)
+			}
+		}
 	}
 	return out
 }
